@@ -22,4 +22,5 @@ PROPS = {
     "C15": P(["import"], level="fault_enumeration"),
     "C16": P(["apply"]),
     "C17": P(["persist", "api"]),
+    "C19": P(["registry"], level="fault_enumeration", script="check19"),
 }
